@@ -22,7 +22,7 @@ RULE = (
     "feature sets x variant kind; a run that did not exercise every production is inconclusive."
 )
 ASSUMPTIONS = [
-    "string literals avoid the double quote, backslash and newline; \\r is not used as whitespace",
+    "string literal bodies are raw text (backslash escapes such as \\\" are kept verbatim by the tree); no raw newline or unescaped quote; \\r is not used as whitespace",
     "duplicate keys inside one binding/device/signal block are not generated",
     "user type names are unique and are not builtin type names",
 ]
